@@ -2,3 +2,5 @@
 pub mod s4;
 pub mod s4drive;
 pub mod codecs;
+pub mod s3;
+pub mod s2;
